@@ -492,7 +492,7 @@ func runC09(c *Ctx) {
 	for _, g := range cfgs {
 		cnt = append(cnt, buildCTCases(rng, g, true, &id)...)
 	}
-	o, err = runGDB(c, "count-native", "driver", drv, []string{writeCases(c, "count-native", cnt)}, nil, 25*time.Minute, nil)
+	o, err = runGDB(c, "count-native", "driver", drv, []string{writeCases(c, "count-native", cnt)}, nil, 90*time.Minute, nil)
 	if err != nil {
 		r.Inconclusive("instruction-count differential (native): " + err.Error())
 	} else {
@@ -518,7 +518,7 @@ func runC09(c *Ctx) {
 		}
 		all := append(append([]ctCase{}, ww...), wc...)
 		outp := filepath.Join(c.Env["VERIF_SCRATCH"], "ct-wasm.res.json")
-		o, err := runGDB(c, "wasm-native", "driver", wn, []string{writeCases(c, "wasm-native", all), outp}, nil, 15*time.Minute, nil)
+		o, err := runGDB(c, "wasm-native", "driver", wn, []string{writeCases(c, "wasm-native", all), outp}, nil, 45*time.Minute, nil)
 		if err != nil {
 			r.Inconclusive("wasm binding monitors: " + err.Error())
 		} else {
